@@ -20,18 +20,32 @@ theorem crash_atomic (tgt tmp : P) (htt : tgt ≠ tmp) (new : Bytes) (chunks : L
   subst hchunks
   exact saveRun_prefix htt chunks fault fs p hp
 
-/-- For every single I/O failure (at the open, at any write — with any partial effect —, at the close, the
-rename or the remove): when the call returns the target is the complete previous or the complete new
-snapshot, and the temporary file is gone. -/
+/-- For every I/O failure (at the open, at any write — with any partial effect, followed by whatever the file object
+still writes or fails to write when it is closed —, at the close, the rename or the remove): when the call returns the
+target is the complete previous or the complete new snapshot, and the temporary file is gone.  (`hcl`: the clean-up
+itself does not fail on top of the first failure; for that case see `double_fault_target_complete`.) -/
 theorem fault_atomic (tgt tmp : P) (htt : tgt ≠ tmp) (new : Bytes) (chunks : List Bytes)
-    (hchunks : chunks.flatten = new) (fault : Option Fault) (fs : FS P) :
+    (hchunks : chunks.flatten = new) (fault : Option Fault) (fs : FS P)
+    (hcl : ∀ f, fault = some f → f.cleanup = false) :
     FaultSafe fs tgt tmp new (saveRun tgt tmp chunks fault).evs := by
   subst hchunks
   obtain ⟨h1, h2, h3⟩ := saveRun_final htt chunks fault fs
-  refine ⟨?_, h1⟩
-  cases hr : (saveRun tgt tmp chunks fault).renamed
-  · exact Or.inl (h3 hr)
-  · exact Or.inr (h2 hr)
+  refine ⟨?_, h1 ?_⟩
+  · cases hr : (saveRun tgt tmp chunks fault).renamed
+    · exact Or.inl (h3 hr)
+    · exact Or.inr (h2 hr)
+  · cases fault with
+    | none => rfl
+    | some f => exact hcl f rfl
+
+/-- A second fault in the clean-up path: something failed, and the `os.remove(tmpfile)` of the `finally` fails as well.
+The target is still the complete previous or the complete new snapshot when the call returns (and at every crash point:
+`crash_atomic` has no hypothesis on the fault); only the temporary file may stay behind.  It does no harm: the next save
+truncates it (`failed_save_retried` and `believed_on_disk` hold for every initial content of the temporary file). -/
+theorem double_fault_target_complete (tgt tmp : P) (htt : tgt ≠ tmp) (new : Bytes) (chunks : List Bytes)
+    (hchunks : chunks.flatten = new) (fault : Option Fault) (fs : FS P) :
+    CompleteSnapshot (applyEvs fs (saveRun tgt tmp chunks fault).evs tgt) (fs tgt) new :=
+  crash_atomic tgt tmp htt new chunks hchunks fault fs _ (List.prefix_refl _)
 
 /-- A call that returns normally has put the new snapshot in place; one that did not get the snapshot in
 place raises (so the caller can never take a failed save for a successful one). -/
@@ -633,7 +647,7 @@ hits the second write after one byte; the crash comes after 4 operations: the ta
 the temporary file holds the partial text `[2,3]` -/
 example :
     let fs : FS Nat := fun p => if p = 0 then some [1] else none
-    let evs := (saveRun (P := Nat) 0 1 [[2], [3, 4]] (some ⟨2, [3], []⟩)).evs
+    let evs := (saveRun (P := Nat) 0 1 [[2], [3, 4]] (some ⟨2, [3], [], false⟩)).evs
     evs.length = 5 ∧ applyEvs fs (evs.take 3) 0 = some [1] ∧ applyEvs fs (evs.take 3) 1 = some [2, 3]
       ∧ applyEvs fs evs 0 = some [1] ∧ applyEvs fs evs 1 = none := by
   decide
@@ -650,7 +664,7 @@ example :
 example :
     let same : Nat → Nat → Bool := fun a b => a == b
     let ser : Nat → List Bytes := fun d => [[d.toUInt8]]
-    let o1 := saveStep (P := Nat) same ser 0 1 7 8 (some ⟨3, [], []⟩)
+    let o1 := saveStep (P := Nat) same ser 0 1 7 8 (some ⟨3, [], [], false⟩)
     let o2 := saveStep (P := Nat) same ser 0 1 o1.believed 8 none
     o1.raised = true ∧ o1.believed = 7 ∧ o2.evs.length = 5 ∧ o2.believed = 8 := by
   decide
@@ -670,7 +684,7 @@ example :
       | [(_, .null)] => [[1]]
       | _ => [[2]]
     let parse : Bytes → Option (JV Nat) := fun b => if b = [1] then some (.obj d1) else if b = [2] then some (.obj d2) else none
-    let hist : List (Dict Nat × Option Fault) := [(d1, some ⟨3, [], []⟩), (d2, none)]
+    let hist : List (Dict Nat × Option Fault) := [(d1, some ⟨3, [], [], false⟩), (d2, none)]
     (∀ a ∈ hist, parse (ser a.1).flatten = some (.obj a.1)) ∧
     (hist.foldl (SaveWorld.step (P := Nat) same ser 0 1) ⟨loadRaw parse none, fun _ => none⟩).believed.length = 1 ∧
     (hist.foldl (SaveWorld.step (P := Nat) same ser 0 1) ⟨loadRaw parse none, fun _ => none⟩).fs 0 = some [2] := by
@@ -727,7 +741,7 @@ holds a = 200, which the write method refuses: the parameter keeps 5 (and the mo
 example :
     let ms : MState Nat Nat := ⟨exParams, [("b", 1)], [], [], []⟩
     valueOf (loadParameters exEnv ms (some (List.replicate 9 1)) none).ms.params "a" = some 9 ∧
-    valueOf (loadParameters exEnv ms (some (List.replicate 200 1)) (some ⟨2, [], []⟩)).ms.params "a" = some 5 ∧
+    valueOf (loadParameters exEnv ms (some (List.replicate 200 1)) (some ⟨2, [], [], false⟩)).ms.params "a" = some 5 ∧
     (loadParameters exEnv ms (some (List.replicate 9 1)) none).writes = [("a", 9)] := by
   refine ⟨by decide +kernel, by decide +kernel, by decide +kernel⟩
 
@@ -737,9 +751,9 @@ example :
     let fs0 : FS Nat := fun p => if p = 0 then some [1, 1, 1] else none
     let o := startUp exEnv exParams [("a", 5)] (fs0 exEnv.tgt) none
     ∀ p ∈ o.ms.params, p.persistent = true →
-      valueOf (loadParameters exEnv o.ms (applyEvs fs0 o.evs exEnv.tgt) (some ⟨1, [1], []⟩)).ms.params p.name = some p.value := by
+      valueOf (loadParameters exEnv o.ms (applyEvs fs0 o.evs exEnv.tgt) (some ⟨1, [1], [], false⟩)).ms.params p.name = some p.value := by
   intro fs0 o
-  exact (reload_after_startup_keeps_values exEnv exLaws.1 exParams [("a", 5)] fs0 none (some ⟨1, [1], []⟩) exLaws.2.1 exCodec
+  exact (reload_after_startup_keeps_values exEnv exLaws.1 exParams [("a", 5)] fs0 none (some ⟨1, [1], [], false⟩) exLaws.2.1 exCodec
     exLaws.2.2.1 exLaws.2.2.2.1 exLaws.2.2.2.2.1 (by decide +kernel) (fun p _ _ => exLaws.2.2.2.2.2 _ _)).1
 
 /-- `reload_from_this_run` applied in that scenario to an arbitrary history; and a concrete history in which the reload
@@ -781,11 +795,11 @@ example (held : String → List Nat) (hist : List (Act Nat × Option Fault)) (fs
     ReloadRestores exEnv.parse exEnv.imp exEnv.wval (some (List.replicate 9 1))
       (exParams.map (fun p => ⟨p.name, p.persistent, p.hasWrite, p.value, held p.name,
         (valueOf (loadParameters exEnv ⟨exParams, [("b", 1)], [], [], []⟩ (some (List.replicate 9 1)) none).ms.params p.name).getD p.value⟩)) ∧
-    (let o := startUp exEnv exParams [("a", 5)] (fs0 exEnv.tgt) (some ⟨3, [], []⟩)
+    (let o := startUp exEnv exParams [("a", 5)] (fs0 exEnv.tgt) (some ⟨3, [], [], false⟩)
      let w := World.run exEnv ⟨o.ms, applyEvs fs0 o.evs⟩ hist
      loadRaw exEnv.parse (w.fs exEnv.tgt) = w.ms.believed) :=
   ⟨reload_restores exEnv ⟨exParams, [("b", 1)], [], [], []⟩ _ none held exLaws.2.1 exLaws.2.2.1 exLaws.2.2.2.1,
-   believed_on_disk_world exEnv exLaws.1 exParams [("a", 5)] fs0 (some ⟨3, [], []⟩) hist exCodec⟩
+   believed_on_disk_world exEnv exLaws.1 exParams [("a", 5)] fs0 (some ⟨3, [], [], false⟩) hist exCodec⟩
 
 /-- `auto_save_stays_registered` / `failed_auto_save_retried` on a non-trivial history: "a" is saved automatically.  The
 automatic save of a := 9 fails at the rename (operation 3 of 5): the file keeps 5, the exception is swallowed, nobody
@@ -795,15 +809,15 @@ again and leaves the file that reads back 11 - obtained from the theorem, whose 
 example :
     let fs0 : FS Nat := fun _ => none
     let o := startUp exEnv exAuto [] (fs0 exEnv.tgt) none
-    let w := World.run exEnv ⟨o.ms, applyEvs fs0 o.evs⟩ [(.set "a" 9, some ⟨3, [], []⟩), (.seterr "a", none)]
+    let w := World.run exEnv ⟨o.ms, applyEvs fs0 o.evs⟩ [(.set "a" 9, some ⟨3, [], [], false⟩), (.seterr "a", none)]
     let s := act exEnv w.ms (w.fs exEnv.tgt) (.set "a" 11) none
     w.ms.writeDict = [] ∧ w.fs 0 = some (List.replicate 5 1) ∧ w.fs 1 = none ∧ valueOf w.ms.params "a" = some 9 ∧
     w.ms.hooks = ["a"] ∧ s.evs.length = 5 ∧ applyEvs w.fs s.evs 0 = some (List.replicate 11 1) ∧
     loadRaw exEnv.parse (applyEvs w.fs s.evs exEnv.tgt) = exportAll exEnv s.ms.params := by
   refine ⟨by decide +kernel, by decide +kernel, by decide +kernel, by decide +kernel, ?_, by decide +kernel,
     by decide +kernel, ?_⟩
-  · exact auto_save_stays_registered exEnv exAuto [] (fun _ => none) none [(.set "a" 9, some ⟨3, [], []⟩), (.seterr "a", none)]
-  · have h := (failed_auto_save_retried exEnv exLaws.1 exAuto [] (fun _ => none) none [(.set "a" 9, some ⟨3, [], []⟩), (.seterr "a", none)]
+  · exact auto_save_stays_registered exEnv exAuto [] (fun _ => none) none [(.set "a" 9, some ⟨3, [], [], false⟩), (.seterr "a", none)]
+  · have h := (failed_auto_save_retried exEnv exLaws.1 exAuto [] (fun _ => none) none [(.set "a" 9, some ⟨3, [], [], false⟩), (.seterr "a", none)]
       exAutoCodec ⟨"a", true, true, false, false, false, 5⟩ (by simp [exAuto]) rfl rfl 11 (by decide +kernel)).2
     rcases h with h | h
     · exact h
@@ -814,11 +828,25 @@ again with the rest (`after`: the disk is full): the events are those of `failed
 crash point, the temporary file is gone -/
 example :
     let fs : FS Nat := fun p => if p = 0 then some [9] else none
-    let r := saveRun (P := Nat) 0 1 [[2, 3], [4]] (some ⟨1, [2], [([2, 3], false), ([], true)]⟩)
+    let r := saveRun (P := Nat) 0 1 [[2, 3], [4]] (some ⟨1, [2], [([2, 3], false), ([], true)], false⟩)
     r.evs.length = 6 ∧ r.raised = true ∧ CrashSafe fs 0 [2, 3, 4] r.evs ∧ FaultSafe fs 0 1 [2, 3, 4] r.evs ∧
     applyEvs fs (r.evs.take 4) 1 = some [2, 2, 3] := by
   refine ⟨by decide +kernel, by decide +kernel, ?_, ?_, by decide +kernel⟩
   · exact crash_atomic 0 1 (by decide) [2, 3, 4] [[2, 3], [4]] rfl _ _
-  · exact fault_atomic 0 1 (by decide) [2, 3, 4] [[2, 3], [4]] rfl _ _
+  · exact fault_atomic 0 1 (by decide) [2, 3, 4] [[2, 3], [4]] rfl _ _ (by intro f hf; cases hf; rfl)
+
+/-- `double_fault_target_complete` on a concrete run: the rename fails (operation 4) and so does the remove of the clean-up.
+The call raises, the target still holds the previous snapshot, the complete temporary file stays behind - and the next,
+undisturbed save puts the new snapshot in place and leaves no temporary file. -/
+example :
+    let fs : FS Nat := fun p => if p = 0 then some [9] else none
+    let r := saveRun (P := Nat) 0 1 [[2, 3], [4]] (some ⟨4, [], [], true⟩)
+    let fs1 := applyEvs fs r.evs
+    let r2 := saveRun (P := Nat) 0 1 [[2, 3], [4]] none
+    r.raised = true ∧ r.evs.length = 6 ∧ fs1 0 = some [9] ∧ fs1 1 = some [2, 3, 4] ∧
+    CompleteSnapshot (fs1 0) (fs 0) [2, 3, 4] ∧
+    applyEvs fs1 r2.evs 0 = some [2, 3, 4] ∧ applyEvs fs1 r2.evs 1 = none := by
+  refine ⟨by decide +kernel, by decide +kernel, by decide +kernel, by decide +kernel, ?_, by decide +kernel, by decide +kernel⟩
+  exact double_fault_target_complete 0 1 (by decide) [2, 3, 4] [[2, 3], [4]] rfl _ _
 
 end Frappy.Props.C17
